@@ -207,6 +207,9 @@ def mono_key(m):
 
 # ----------------------------------------------------------------------------- RF value
 
+WIDE_K = 1000000
+
+
 class RF:
     """num / prod(factor_i ^ mult_i).  num: dict mono->Fraction.  den: tuple of (fid, mult)
     sorted by fid, fid indexes Algebra.factors."""
@@ -271,6 +274,7 @@ class Algebra:
     def __init__(self, term_budget=20000, time_budget=20.0):
         self.atoms = []
         self.by_name = {}
+        self.point_hooks = {}    # atom name -> value at witness point k (dependent atoms, e.g. unit normals)
         self.factors = []        # fid -> poly dict (primitive, content-free, lc=1)
         self.factor_index = {}   # frozen key -> fid
         self.bases = []          # base atoms
@@ -1482,8 +1486,19 @@ class Algebra:
     # ------------------------------------------------------------------ random interpretation
     def point_value(self, at, k):
         """deterministic pseudo-random admissible value of a sym/opaque atom at point k"""
+        hook = self.point_hooks.get(at.name)
+        if hook is not None:
+            return hook(k)
         h = (hash_str("%s|%d" % (at.name, k)) % 100003) / 100003.0
         h2 = hash_str("%s#%d" % (at.name, k)) % 2
+        if k >= WIDE_K and not at.unit:
+            # escalation stage of the witness search: log-uniform magnitudes over three decades,
+            # caller's ranges ignored (marginal / strongly sheared / strongly stratified states)
+            lb = float(self.lower_bounds.get(at.id, 0))
+            mag = 10.0 ** (-1.5 + 3.0 * h)
+            if at.positive:
+                return lb + mag
+            return mag if h2 else -mag
         rng = self.ranges.get(at.name)
         if rng is not None:
             return rng[0] + (rng[1] - rng[0]) * h
@@ -1564,7 +1579,7 @@ class Algebra:
             return False
         return True
 
-    def witness(self, a, b, npoints=None, tries=None, rtol=1e-12):
+    def witness(self, a, b, npoints=None, tries=None, rtol=1e-12, k0=0):
         import os
         deep = os.environ.get("FDCHECK_TIER") == "thorough"
         npoints = npoints or (24 if deep else 6)
@@ -1574,7 +1589,7 @@ class Algebra:
         'nopoint' if too few admissible points were found."""
         found = 0
         tol = Decimal(repr(rtol))
-        for k in range(tries):
+        for k in range(k0, k0 + tries):
             if not self.admissible(k):
                 continue
             va, vb = self.evalf(a, k), self.evalf(b, k)
@@ -1616,6 +1631,17 @@ class Algebra:
         self._t0 = None
         try:
             st, info = self.witness(a, b)
+            if st == "agree" and exact is False:
+                # the normal forms differ, so the values differ somewhere unless indicators are
+                # dependent: the region may be small (a selector that flips only for marginal
+                # states) -- sample much more before giving up
+                st, info = self.witness(a, b, npoints=200, tries=3000)
+                if st != "differ":
+                    st2, info2 = self.witness(a, b, npoints=400, tries=30000, k0=WIDE_K)
+                    if st2 == "differ":
+                        st, info = st2, info2
+                    else:
+                        info = {"points": info.get("points", 0) + info2.get("points", 0)}
         finally:
             self._t0 = time.time() if had_clock else None
         if st == "differ":
